@@ -26,3 +26,11 @@ Proof.
   - intros Hin. apply in_app_or in Hin as [Hin|Hin]; [contradiction| eapply Hd; [left; reflexivity| exact Hin]].
   - apply IH; [exact Hl| exact H'|]. intros x Hx Hx'. eapply Hd; [right; exact Hx| exact Hx'].
 Qed.
+
+Lemma app_inj_pivot_len {A} : forall (l1 l1' : list A) y y' l2 l2',
+  l1 ++ y :: l2 = l1' ++ y' :: l2' -> length l1 = length l1' -> l1 = l1' /\ y = y' /\ l2 = l2'.
+Proof.
+  induction l1 as [|a l1 IH]; intros [|a' l1'] y y' l2 l2' E L; cbn in *; try discriminate.
+  - injection E as -> ->. auto.
+  - injection E as -> E. injection L as L. destruct (IH _ _ _ _ _ E L) as (-> & -> & ->). auto.
+Qed.
